@@ -26,7 +26,7 @@ CLASSES = ["honest", "honest", "honest", "honest_junk", "replay_current", "rollb
            "insufficient_old", "insufficient_new", "type_confused", "malformed", "corrupted_sigs", "wrong_payload_sigs",
            "replayed_signatures", "replayed_signatures", "draft_threshold_above_keys", "draft_threshold_above_keys",
            "superset_takeover", "superset_takeover", "same_keys_lower_threshold_by_outsider", "raw_shaped_entries_under_root_keys",
-           "raw_shaped_entries_under_root_keys", "decoy_root_role"]
+           "raw_shaped_entries_under_root_keys", "decoy_root_role", "insider_respelled_entries", "insider_respelled_entries"]
 
 
 def plan(tier, seed):
@@ -123,6 +123,23 @@ def gen_offer(cls, trusted, accepted_log, rng):
         for k in K:
             off["signatures"][k.hex] = rng.choice([{"signature": "%0128x" % rng.getrandbits(512)},
                                                    {"signature": ed25519.sign(gkeys.key(28).seed, data).hex()}])
+        return off, True
+    if cls == "insider_respelled_entries":
+        # an insider holding FEWER than the threshold of current root keys appoints his own key; each held key's valid signature is
+        # filed under the key itself and again under other spellings of it (upper / mixed case, padded, prefixed): one signer, one slot
+        att = outsiders[:1] or [gkeys.key(30)]
+        held = rng.sample(K, max(0, t_eff - 1))
+        off = rootchain.signed_root(v + 1, att, 1, att + held, rng)
+        for k in held:
+            e = off["signatures"].get(k.hex)
+            if e is None:
+                continue
+            sps = gkeys.respellings(k.hex)
+            for sp in [sps[0], sps[1]] + rng.sample(sps[2:], 2):
+                off["signatures"][sp] = copy.deepcopy(e)
+        items = list(off["signatures"].items())
+        rng.shuffle(items)
+        off["signatures"] = dict(items)
         return off, True
     if cls == "decoy_root_role":
         att = outsiders[:1] or [gkeys.key(29)]
